@@ -3,6 +3,7 @@ package main
 // Models of sync, time, math/rand.
 
 import (
+	"fmt"
 	"go/types"
 )
 
@@ -300,5 +301,93 @@ func registerTimeIntrinsics() {
 	intrinsics["(*math/rand.Rand).Float64"] = func(p *Path, th *Thread, fr *Frame, args []Value) Value { return float64(0.5) }
 }
 
-func registerGobIntrinsics() {}
-func registerNetIntrinsics() {}
+
+// ---------- hash functions as uninterpreted functions ----------
+//
+// fnv1a.AddUint32 / AddString32 on symbolic arguments are abstracted to an uninterpreted function with
+// congruence axioms (a = a' ∧ b = b' ⇒ f(a,b) = f(a',b')). Deciding facts about concrete FNV collisions is not
+// within reach of the solvers; every claim made with this abstraction holds for ANY hash function.
+
+type ufApp struct {
+	args []*Term
+	str  string
+	res  *Term
+}
+
+func (p *Path) ufApply(name string, args []*Term, str string) *Term {
+	key := "uf:" + name
+	apps, _ := p.side[key].([]ufApp)
+	for _, a := range apps {
+		if a.str != str {
+			continue
+		}
+		same := true
+		for i := range args {
+			if a.args[i] != args[i] {
+				same = false
+			}
+		}
+		if same {
+			return a.res
+		}
+	}
+	tt := p.tt
+	k := p.tagCount["uf:"+name]
+	p.tagCount["uf:"+name]++
+	var res *Term
+	if p.e.intMode {
+		res = tt.VarRange(fmt.Sprintf("uf.%s#%d", name, k), 0, int64(mask(32)))
+	} else {
+		res = tt.Var(fmt.Sprintf("uf.%s#%d", name, k), 32)
+	}
+	for _, a := range apps {
+		if a.str != str {
+			continue
+		}
+		eq := tt.Bool(true)
+		for i := range args {
+			eq = tt.And(eq, tt.Eq(a.args[i], args[i]))
+		}
+		if eq.IsFalse() {
+			continue
+		}
+		p.addPC(tt.Or(tt.Not(eq), tt.Eq(a.res, res)))
+	}
+	p.side[key] = append(apps, ufApp{args: args, str: str, res: res})
+	p.model = nil // the cached model does not assign the new symbol consistently
+	return res
+}
+
+func fnvAddUint32(h, u uint32) uint32 {
+	const prime32 = uint32(16777619)
+	h = (h ^ ((u >> 24) & 0xFF)) * prime32
+	h = (h ^ ((u >> 16) & 0xFF)) * prime32
+	h = (h ^ ((u >> 8) & 0xFF)) * prime32
+	h = (h ^ ((u >> 0) & 0xFF)) * prime32
+	return h
+}
+
+func fnvAddString32(h uint32, s string) uint32 {
+	const prime32 = uint32(16777619)
+	for i := 0; i < len(s); i++ {
+		h = (h ^ uint32(s[i])) * prime32
+	}
+	return h
+}
+
+func init() {
+	intrinsics["github.com/segmentio/fasthash/fnv1a.AddUint32"] = func(p *Path, th *Thread, fr *Frame, args []Value) Value {
+		h, u := args[0].(*Term), args[1].(*Term)
+		if h.IsConst() && u.IsConst() {
+			return p.mkInt(types.Typ[types.Uint32], int64(fnvAddUint32(uint32(h.val), uint32(u.val))))
+		}
+		return p.ufApply("fnvAddUint32", []*Term{h, u}, "")
+	}
+	intrinsics["github.com/segmentio/fasthash/fnv1a.AddString32"] = func(p *Path, th *Thread, fr *Frame, args []Value) Value {
+		h, s := args[0].(*Term), args[1].(string)
+		if h.IsConst() {
+			return p.mkInt(types.Typ[types.Uint32], int64(fnvAddString32(uint32(h.val), s)))
+		}
+		return p.ufApply("fnvAddString32", []*Term{h}, s)
+	}
+}
